@@ -381,10 +381,12 @@ class Machine:
                 self.close_compacting()
             elif kind in ('server', 'extend', 'fork', 'force'):
                 abandoned = False
-                if self.cdb is not None and self.cdb.history.comp_cursor != -1:
+                # (looked up on disk: a refused tool run may have closed the compacting handle)
+                cdb = await self.open_compacting() if self.compaction_touched else None
+                if cdb is not None and cdb.history.comp_cursor != -1:
                     abandoned = True
                     self.info['classes'].add('abandoned_unfinished_compaction')
-                    ok, top = self.ordering_ok(self.cdb.history)
+                    ok, top = self.ordering_ok(cdb.history)
                     if not ok:
                         # the clause's stated precondition fails for this database: some script
                         # hash has more compacted rows than the flush count
